@@ -56,6 +56,9 @@ type CaseSpec struct {
 	Subs    []bool    `json:"subs"`   // per subscriber: returns nil?
 	Mutate  bool      `json:"mutate"` // first subscriber mutates what it received
 	Corrupt []string  `json:"corrupt"`
+	// Cancel: the context passed to Aggregate is cancelled -- 0 never, 1 before the call,
+	// k+1 right after the k-th invocation of the (wrapped) verifier.
+	Cancel int `json:"cancel"`
 }
 
 // PubObs is one object observed at a subscriber.
@@ -354,9 +357,27 @@ func (e *env) run(spec CaseSpec) Case {
 		valTerms = append(valTerms, fmt.Sprintf("(%d, [%s])", vs.V, strings.Join(terms, "; ")))
 	}
 
-	agg, err := sigagg.New(spec.T, sigagg.NewVerifier(e.bmock))
+	// The verifier is the real one; the wrapper only counts invocations, cancels the caller's
+	// context at the scripted moment and shields the beacon-mock HTTP client from that cancellation
+	// (Aggregate itself never consults ctx: the outcome must not depend on it).
+	actx, cancel := context.WithCancel(e.ctx)
+	defer cancel()
+	realVerify := sigagg.NewVerifier(e.bmock)
+	verifyCalls := 0
+	agg, err := sigagg.New(spec.T, func(ctx context.Context, pk core.PubKey, sd core.SignedData) error {
+		verr := realVerify(context.WithoutCancel(ctx), pk, sd)
+		verifyCalls++
+		if spec.Cancel >= 2 && verifyCalls == spec.Cancel-1 {
+			cancel()
+		}
+
+		return verr
+	})
 	if err != nil {
 		e.t.Fatal(err)
+	}
+	if spec.Cancel == 1 {
+		cancel()
 	}
 	for si := range spec.Subs {
 		agg.Subscribe(func(_ context.Context, _ core.Duty, out core.SignedDataSet) error {
@@ -416,7 +437,7 @@ func (e *env) run(spec CaseSpec) Case {
 		})
 	}
 
-	aerr := agg.Aggregate(e.ctx, core.Duty{Slot: slot, Type: g.Duty}, set)
+	aerr := agg.Aggregate(actx, core.Duty{Slot: slot, Type: g.Duty}, set)
 	c.Err = errClass(aerr)
 	if aerr != nil {
 		c.ErrText = aerr.Error()
@@ -445,8 +466,8 @@ func (e *env) run(spec CaseSpec) Case {
 		}
 		calls = append(calls, "["+strings.Join(objs, "; ")+"]")
 	}
-	c.Label = fmt.Sprintf("mkl %d%%nat [%s] [%s] %s [%s]", spec.T, strings.Join(valTerms, "; "), strings.Join(subs, "; "), errTerm, strings.Join(calls, "; "))
-	c.NonTrivial = len(spec.Corrupt) > 0
+	c.Label = fmt.Sprintf("mkl %d%%nat [%s] [%s] %d %s [%s]", spec.T, strings.Join(valTerms, "; "), strings.Join(subs, "; "), spec.Cancel, errTerm, strings.Join(calls, "; "))
+	c.NonTrivial = len(spec.Corrupt) > 0 || spec.Cancel > 0
 
 	return c
 }
@@ -621,6 +642,43 @@ func (e *env) genCases(total int) []CaseSpec {
 			n, th := nt()
 			if ps, ok := corrupt(r, cn, validParts(0, subset(r, n, th+r.Intn(n-th+1))), 0, n, th, g.IsAtt); ok {
 				add(CaseSpec{Kind: "corrupt1", Type: name, T: th, N: n, Vals: []ValSpec{{V: 0, Parts: ps}}, Corrupt: []string{cn}})
+			}
+		}
+	}
+	// context cancelled before the call / right after the k-th verifier invocation, in batches of
+	// 2..3 validators with 0, 1 or 2 deficient or corrupted validators at every placement; the map
+	// order is Go's (random), so every such call is repeated
+	reps := 3
+	if total > 3000 {
+		reps = 8
+	}
+	for nv := 2; nv <= 3; nv++ {
+		for mask := 0; mask < 1<<nv; mask++ {
+			nbad := 0
+			for v := 0; v < nv; v++ {
+				nbad += mask >> v & 1
+			}
+			if nbad > 2 {
+				continue
+			}
+			for cancelAt := 1; cancelAt <= nv+1; cancelAt++ {
+				for rep := 0; rep < reps; rep++ {
+					name := e.names[r.Intn(len(e.names))]
+					n, th := nt()
+					c := CaseSpec{Kind: "ctx-cancel", Type: name, T: th, N: n, Cancel: cancelAt}
+					for v := 0; v < nv; v++ {
+						ps := validParts(v, subset(r, n, th+r.Intn(n-th+1)))
+						if mask>>v&1 == 1 {
+							cn := []string{"toofew", "repeat_nosurplus", "wrongshare", "zero", "othermsg"}[r.Intn(5)]
+							if q, ok := corrupt(r, cn, ps, v, n, th, e.gens[name].IsAtt); ok && len(q) > 0 {
+								ps = q
+								c.Corrupt = append(c.Corrupt, cn)
+							}
+						}
+						c.Vals = append(c.Vals, ValSpec{V: v, Parts: ps})
+					}
+					add(c)
+				}
 			}
 		}
 	}
